@@ -4,10 +4,12 @@ use libfuzzer_sys::fuzz_target;
 use std::collections::HashMap;
 use std::sync::OnceLock;
 
-static SVC: OnceLock<varlink::VarlinkService> = OnceLock::new();
+static SVC: OnceLock<(varlink::VarlinkService, vl_tsvc::Probe)> = OnceLock::new();
 
 fuzz_target!(|data: &[u8]| {
-    let svc = SVC.get_or_init(|| vl_tsvc::t_service().0);
+    let (svc, probe) = SVC.get_or_init(vl_tsvc::t_service);
+    // no state from earlier inputs: the probe records every byte an upgraded handler was offered
+    probe.upgraded.lock().unwrap().clear();
     let none: HashMap<Vec<u8>, (vl_model::wire::Sym, usize)> = HashMap::new();
     if let Err(f) = vl_model::oracles::check_bytes(svc, &none, data, "handle") {
         panic!("C06 violation {}: {}", f.key, f.what);
